@@ -20,7 +20,7 @@ RULE = ('operations over a universe of 16 rules (shared and splitting prefixes, 
         'history: probes on ~30 paths x 2 verbs + names + rules + routes + WSGI hook traces, real vs freshly built. Non-trivial = the history '
         'contains a removal or a rejected operation; distinct = distinct history.')
 PYOPT = {'quick': 1, 'thorough': 1}     # one unit of every kind is also served by an interpreter started with -O (assert statements compiled out)
-REQUIRED = ['units_run_under_python_-O', 'scripted_histories', 'op_add_method_list', 'histories', 'ops_applied', 'ops_rejected', 'resolve_probes', 'name_probes', 'wsgi_probes', 'hook_firings_compared', 'structure_checks',
+REQUIRED = ['units_run_under_python_-O', 'wsgi_probes_below_a_mount_point', 'op_add_method_on_the_route_object', 'scripted_histories', 'op_add_method_list', 'histories', 'ops_applied', 'ops_rejected', 'resolve_probes', 'name_probes', 'wsgi_probes', 'hook_firings_compared', 'structure_checks',
             'op_add', 'op_remove', 'op_remove_name', 'op_remove_prefix', 'op_add_hook', 'op_remove_hook', 'op_overwrite', 'rejected_method_clash',
             'rejected_name_clash', 'hook_reference_checked', 'removed_then_probed', 'hook_only_prefix_probed']
 EXHAUSTIVE = {'quick': True, 'thorough': True, 'quick_note': 'all histories of length <= 2 over the 76-operation alphabet',
@@ -56,7 +56,8 @@ RULES = {
 }
 SEL1, SEL2, SEL0 = '/s/<v.rex((a+)|(b+))[1]>', '/s/<v.rex((a+)|(b+))[2]>', '/s/<v.rex((a+)|(b+))>'
 FAMILIES = [{'/a/<x>', '/a/<x>/c', '/a/<n:int>'}, {'/b/<p:path>', '/b/<p:path>/end'}]
-HOOKS = {'/': '', '/a': 'a', '/a/<x>': 'a/' + W, '/h': 'h', '/ab': 'ab', '/zz': 'zz', '/a/b': 'a/b'}
+# the hook on the wildcard position spells the wildcard differently from the routes on it (`<w>` / `<x>`): names belong to rules
+HOOKS = {'/': '', '/a': 'a', '/a/<w>': 'a/' + W, '/h': 'h', '/ab': 'ab', '/zz': 'zz', '/a/b': 'a/b'}
 EXTRA_PATHS = ['/s/ab', '/s/c', '/s/b', '/s', '/i/5', '/i/abc', '/i/abc/e', '/i/5.json', '/i/7/e', '/', '/a/', '/abcd', '/a/5/c', '/a/b/c', '/zz', '/zz/top', '/h', '/h/z', '/b/end', '/b', '/x/d', '/a/b/', '/A', '/a//c', '/ab/']
 PREFIXES = ['/a*', '/a/*', '/h/*', '/q*', '/a/b*', '/s/*']
 
@@ -78,6 +79,9 @@ def alphabet():
     for r in ('/a', '/a/<x>', '/h/x'):
         ops.append(('add', r, ('PATCH', 'GET'), None, False))
         ops.append(('add', r, ('GET', 'PATCH'), 'n2', False))
+    # a method attached to the route object itself (no rule text, so no wildcard names of its own)
+    for r in ('/a/<x>', '/a/<x>/c', '/h/x', '/i/<n:int>/e'):
+        ops.append(('add_direct', r, 'PUT'))
     for r in RULES:
         ops.append(('remove', r))
     ops.append(('remove_name', 'n1'))
@@ -118,6 +122,11 @@ class Sys:
                 _, rule, meth, name, ow = op
                 hid, h = self.mk_handler(self.log)
                 app.route(rule, list(meth) if isinstance(meth, (tuple, list)) else meth, h, name=name, overwrite=ow)
+            elif kind == 'add_direct':
+                route = app.router[{op[1]}] if op[1] in self.routes else None
+                if route is not None:
+                    hid, h = self.mk_handler(self.log)
+                    route.add_method(op[2], h)
             elif kind == 'remove':
                 app.remove_route(op[1])
             elif kind == 'remove_name':
@@ -174,6 +183,22 @@ class Sys:
                     ctx.count('rejected_filter_clash')
                 else:
                     ctx.violation(f'add-rejected-without-reason:{out}', f'{op} with routes {sorted(self.routes)}', None)
+        elif kind == 'add_direct':
+            cur = self.routes.get(op[1])
+            if cur is None:
+                return
+            ctx.count('op_add_method_on_the_route_object')
+            clash = op[2] in cur['methods']
+            if ok:
+                if clash:
+                    ctx.violation('duplicate-method-accepted-without-overwrite', f'{op}', None)
+                cur['methods'][op[2]] = hid
+            else:
+                ctx.count('ops_rejected')
+                if clash:
+                    ctx.count('rejected_method_clash')
+                else:
+                    ctx.violation(f'add-rejected-without-reason:{out}', f'{op} with routes {sorted(self.routes)}', None)
         elif kind == 'remove':
             ctx.count('op_remove')
             if not ok:
@@ -216,7 +241,7 @@ class Sys:
                 self.unspec.discard(op[1])
             else:
                 ctx.count('ops_rejected')
-                if not (op[1] == '/a/<x>' and out == 'raised:RadiDictKeyError'):
+                if not (op[1] == '/a/<w>' and out == 'raised:RadiDictKeyError'):
                     ctx.violation(f'add_hook-rejected-without-reason:{out}', f'{op}', None)
         elif kind == 'remove_hook':
             ctx.count('op_remove_hook')
@@ -363,7 +388,7 @@ def compare(ctx, real, hist, tag):
     ra, fa = real.app, fresh.app
     ok = True
     for path in probe_paths():
-        for verb in ('GET', 'POST'):
+        for verb in ('GET', 'POST', 'PUT'):
             a = filt_hooks(resolve_answer(ra, path, verb), real.unspec_ids)
             b = filt_hooks(resolve_answer(fa, path, verb), set())
             ctx.count('resolve_probes')
@@ -422,9 +447,13 @@ def compare(ctx, real, hist, tag):
     for path in probe_paths():
         del real.log[:]
         del fresh.log[:]
-        r1 = call_app(ra, make_environ('GET', path))
-        r2 = call_app(fa, make_environ('GET', path))
+        # every other probe reaches the applications below a mount point: hooks are given prefixes of the routed path (PATH_INFO)
+        mount = '/mnt' if len(path) % 2 else ''
+        r1 = call_app(ra, make_environ('GET', path, script_name=mount))
+        r2 = call_app(fa, make_environ('GET', path, script_name=mount))
         ctx.count('wsgi_probes')
+        if mount:
+            ctx.count('wsgi_probes_below_a_mount_point')
         l1 = [e for e in real.log if not (e[0] == 'hook' and e[1] in real.unspec_ids)]
         l2 = list(fresh.log)
         ctx.count('hook_firings_compared', sum(1 for e in l2 if e[0] == 'hook'))
@@ -524,7 +553,7 @@ def scripted_histories():
                 out.append(base + tail + [('add', r, 'GET', 'n1', False), ('remove_name', 'n2'), ('remove_name', 'n1')])
         out.append([('add', r, 'GET', 'n1', False), ('add', r, 'GET', 'n2', True), ('remove', r)])
         out.append([('add', r, 'GET', 'n1', False), ('add', r, 'GET', 'n2', True), ('remove_name', 'n1'), ('add', r, 'POST', None, False)])
-    for h in ('/a', '/a/b', '/ab', '/h', '/a/<x>'):
+    for h in ('/a', '/a/b', '/ab', '/h', '/a/<w>'):
         for r1, r2 in (('/a/b', '/ab'), ('/abc', '/ab'), ('/a/<x>/c', '/a/b/<z>'), ('/h/x', '/h/y'), ('/a/<x>', '/a/b')):
             out.append([('add_hook', h), ('add', r1, 'GET', None, False), ('add', r2, 'GET', None, False)])
             out.append([('add_hook', h), ('add', r1, 'GET', None, False), ('add', r2, 'GET', None, False), ('remove', r1)])
@@ -535,6 +564,11 @@ def scripted_histories():
             out.append([('add', x, 'GET', None, False), ('add', y, 'GET', None, False), ('remove', x)])
             out.append([('add', x, 'GET', None, False), ('add', y, 'GET', None, False), ('remove', x), ('add', x, 'POST', None, False)])
             out.append([('add', x, 'GET', None, False), ('add', y, 'GET', None, False), ('remove', y), ('remove', x)])
+    for r in ('/a/<x>', '/a/<x>/c'):
+        out.append([('add_hook', '/a/<w>'), ('add', r, 'GET', None, False), ('add_direct', r, 'PUT')])
+        out.append([('add', r, 'GET', None, False), ('add_hook', '/a/<w>'), ('add_direct', r, 'PUT')])
+        out.append([('add_hook', '/a/<w>'), ('add', r, 'GET', None, False), ('remove_hook', '/a/<w>'), ('add_direct', r, 'PUT')])
+        out.append([('add_hook', '/a/<w>'), ('add', r, 'GET', None, False), ('add_direct', r, 'PUT'), ('remove', r), ('add', r, 'PUT', None, False)])
     for named, other in ((SEL1, SEL0), (SEL1, SEL2), (SEL0, SEL1), (SEL2, SEL0)):
         base = [('add', named, 'GET', 'n1', False), ('add', other, 'GET', None, False)]
         out.append(base + [('remove_name', 'n1')])
